@@ -103,7 +103,7 @@ func SolveUnit(r *UnitResult, cfg SolverCfg) {
 	for _, ob := range order {
 		need := false
 		if ob.Cover {
-			need = ob.Result != "sat"
+			need = ob.Result != "sat" && ob.Result != "unsat"
 		} else {
 			need = ob.Result != "unsat"
 		}
